@@ -183,7 +183,7 @@ package keeper
 // ---------------------------------------------------------------------------------------------
 // Prices and the charge for a new batch (C07)
 
-//@ family bindings key types.GetServiceBindingKey value types.ServiceBinding
+//@ family bindings key types.GetServiceBindingKey value types.ServiceBinding prefix global:types.ServiceBindingKey
 //@ family pricings key types.GetPricingKey value types.Pricing
 //@ family volumes  key types.GetRequestVolumeKey value uint64 enc proto
 
@@ -603,7 +603,7 @@ package keeper
 //@   nopanic C13, C16
 //@ end
 
-//@ family definitions key types.GetServiceDefinitionKey value types.ServiceDefinition
+//@ family definitions key types.GetServiceDefinitionKey value types.ServiceDefinition prefix global:types.ServiceDefinitionKey
 //@ func Keeper.GetServiceDefinition(ctx, serviceName)
 //@   property C07
 //@   returns def, found
